@@ -30,3 +30,13 @@ func VerifHandleConn(s *Server, conn net.Conn) { s.handleTcpConnect(conn) }
 
 // VerifSetWChanSize sets the server-session write queue size (0 = synchronous writes).
 func VerifSetWChanSize(n int) { wChanSize = n }
+
+// VerifDialFn, when set, replaces net.Dial in ClientSession (vgen rewrites the selector).
+var VerifDialFn func(network, addr string) (net.Conn, error)
+
+func verifDial(network, addr string) (net.Conn, error) {
+	if VerifDialFn != nil {
+		return VerifDialFn(network, addr)
+	}
+	return net.Dial(network, addr)
+}
